@@ -24,6 +24,11 @@ type c06Input struct {
 	Seg    []int  `json:"seg"`  // transport segmentation seen by the reader (cycled); empty = unlimited
 	Bufs   []int  `json:"bufs"` // read buffer sizes (cycled)
 	Dir    string `json:"dir"`  // c2s | s2c
+	// EOFWithData: the transport returns the last bytes of the stream together with io.EOF
+	EOFWithData bool `json:"eof_with_data,omitempty"`
+	// Answer: the writer ends with CloseWrite instead of Close and then reads, until end-of-stream, what the
+	// peer writes (these sizes) after it saw the end of the first stream; the transport honours deadlines
+	Answer []int `json:"answer,omitempty"`
 }
 
 func c06Mode(suite uint16) string {
@@ -50,6 +55,11 @@ func c06AddCase(out *emit.Out, scenario string, in c06Input) {
 		seg := in.Seg
 		wire.Seg = func(k int) int { return seg[k%len(seg)] }
 	}
+	wire.EOFWithData = in.EOFWithData
+	if len(in.Answer) > 0 {
+		tp.C2S.Deadlines, tp.S2C.Deadlines = true, true
+		tp.C2S.EOFWithData, tp.S2C.EOFWithData = in.EOFWithData, in.EOFWithData
+	}
 	cr, sr, hung := tp.Handshake(10 * time.Second)
 	direct := ""
 	if hung || cr.Err != "" || sr.Err != "" {
@@ -68,6 +78,8 @@ func c06AddCase(out *emit.Out, scenario string, in c06Input) {
 	var got []byte
 	var readSizes []int
 	var rerr string
+	var ansSent, ansGot []byte
+	var ansErr string
 	var wg sync.WaitGroup
 	wg.Add(2)
 	go func() {
@@ -82,6 +94,25 @@ func c06AddCase(out *emit.Out, scenario string, in c06Input) {
 			sent = append(sent, p...)
 			if err != nil {
 				werr = tk.ErrClass(err)
+				break
+			}
+		}
+		if len(in.Answer) == 0 {
+			writer.Close()
+			return
+		}
+		// half-close, then read the answer to its end
+		if err := writer.CloseWrite(); err != nil {
+			werr = "closewrite:" + tk.ErrClass(err)
+		}
+		buf := make([]byte, 4096)
+		for {
+			n, err := writer.Read(buf)
+			ansGot = append(ansGot, buf[:n]...)
+			if err != nil {
+				if err != io.EOF {
+					ansErr = tk.ErrClass(err)
+				}
 				break
 			}
 		}
@@ -103,6 +134,17 @@ func c06AddCase(out *emit.Out, scenario string, in c06Input) {
 				} else {
 					rerr = "eof"
 				}
+				if len(in.Answer) > 0 {
+					for i, n := range in.Answer {
+						p := bytes.Repeat([]byte{byte(0xA0 + i)}, n)
+						ansSent = append(ansSent, p...)
+						if k, err := reader.Write(p); err != nil || k != n {
+							ansErr = "answer-write:" + tk.ErrClass(err)
+							break
+						}
+					}
+					reader.Close()
+				}
 				return
 			}
 		}
@@ -123,7 +165,7 @@ func c06AddCase(out *emit.Out, scenario string, in c06Input) {
 			wireLens = append(wireLens, len(r))
 		}
 	}
-	intact := bytes.Equal(sent, got)
+	intact := bytes.Equal(sent, got) && bytes.Equal(ansSent, ansGot)
 	zs := func(xs []int) string {
 		var s []string
 		for _, x := range xs {
@@ -137,9 +179,10 @@ func c06AddCase(out *emit.Out, scenario string, in c06Input) {
 	}
 	out.Add(emit.Case{Scenario: scenario, Trivial: len(in.Writes) < 2, Input: in, Direct: direct,
 		Observed: map[string]interface{}{"bytes_sent_before": bytes0, "wire_lens": wireLens, "rets": rets, "write_err": werr,
-			"read_sizes_n": len(readSizes), "read_err": rerr, "intact": intact, "total": total},
+			"read_sizes_n": len(readSizes), "read_err": rerr, "intact": intact, "total": total,
+			"answer_bytes": len(ansSent), "answer_read": len(ansGot), "answer_err": ansErr},
 		Coq: fmt.Sprintf("StreamCase %s %s %d %s %s %s %s %s %s %s", emit.Bool(in.DynOff), c06Mode(in.Suite), bytes0, zs(in.Writes), zs(wireLens), zs(rets),
-			zs(in.Bufs), zs(readSizes), emit.Bool(intact), emit.Bool(rerr == "eof" && werr == ""))})
+			zs(in.Bufs), zs(readSizes), emit.Bool(intact), emit.Bool(rerr == "eof" && werr == "" && ansErr == ""))})
 }
 
 func runC06(p params) error {
@@ -178,8 +221,18 @@ func runC06(p params) error {
 		c06AddCase(out, "corpus-ramp-cap", c06Input{Suite: su, Writes: []int{60000, 60000, 1}, Bufs: big, Seg: []int{1400}, Dir: "c2s"})
 		c06AddCase(out, "corpus-sizing-off", c06Input{Suite: su, DynOff: true, Writes: []int{16384*3 + 5, 16384, 16385}, Bufs: big, Dir: "s2c"})
 	}
+	// corpus: the last bytes arrive together with the transport's EOF; request, half-close, read the answer
+	for i, su := range suites {
+		dir := []string{"c2s", "s2c"}[i%2]
+		c06AddCase(out, "corpus-eof-with-data", c06Input{Suite: su, Writes: []int{1, 700, 0, 3000}, Bufs: []int{1000}, Seg: [][]int{nil, {1}, {7, 13}, {1400}}[i], Dir: dir, EOFWithData: true})
+		c06AddCase(out, "corpus-half-close-then-answer", c06Input{Suite: su, Writes: []int{5, 2000}, Bufs: []int{512}, Dir: dir, Answer: []int{1, 40000, 17}, EOFWithData: i >= 2})
+	}
 	for i := 0; i < n; i++ {
 		in := c06Input{Suite: suites[i%4], DynOff: r.IntN(3) == 0, Dir: []string{"c2s", "s2c"}[r.IntN(2)]}
+		in.EOFWithData = r.IntN(4) == 0
+		if r.IntN(5) == 0 {
+			in.Answer = [][]int{{1}, {100, 0, 100}, {20000}, {16384, 1}}[r.IntN(4)]
+		}
 		small := r.IntN(2) == 0
 		if small { // tiny buffers / 1-byte segmentation, little data
 			k := 1 + r.IntN(5)
